@@ -12,6 +12,12 @@
 //!   rec <slot> <field name> <vals>                  span.record(name, vals.i)
 //!   en <slot>   ex <slot>   dr <slot>
 //!   fol <slot> <from slot|->                        span.follows_from(from.id())   (no log call in the source)
+//!   insc <slot>                                     span.in_scope(|| ())                       (enter + exit)
+//!   ins <slot> <t|f>                                the span in the slot is moved into `pending().instrument(span)`:
+//!                                                   t = tracing::Instrument, f = tracing_futures::Instrument
+//!   poll <slot>                                     poll that future once (no-op waker): the span is entered and exited
+//!   idrop <slot>                                    drop the future: the span is entered and exited around the inner
+//!                                                   value's drop, then the span itself is dropped
 //!   hbs                                             nothing: only observe has_been_set()
 //!   @<k> ev ... | install <scoped|global> | uninstall | hbs       the same op on WORKER THREAD k (1..3); the main
 //!                                                   thread waits for it to finish (every op is ordered after the last)
@@ -26,6 +32,9 @@
 //! on the main thread inside the `gmid` window), the number of tracing events/spans the collector saw, and the `{:?}`
 //! rendering of `s` (std's, so the driver need not re-implement `<str as Debug>`).
 use std::cell::{Cell, RefCell};
+use std::future::Future;
+use std::pin::Pin;
+use std::task::{Context, Waker};
 use std::fmt::Write as _;
 use std::sync::atomic::{AtomicBool, AtomicU64, Ordering};
 use std::sync::mpsc::{channel, Receiver, Sender};
@@ -229,10 +238,13 @@ fn make_span(cs: usize, v: &Vals) -> Span {
     }
 }
 
+type Never = std::future::Pending<()>;
 enum Slot {
     Empty,
     Idle(Span),
     Entered(EnteredSpan),
+    FutT(Pin<Box<tracing::instrument::Instrumented<Never>>>),
+    FutF(Pin<Box<tracing_futures::Instrumented<Never>>>),
 }
 
 // ---- worker threads: each executes one command at a time and reports back; the main thread waits for the reply
@@ -407,6 +419,49 @@ fn main() {
                 extra = format!("{},\"paused\":{}{},\"ds\":{}", extra, paused, mid, jstr(&format!("{:?}", v.s)));
             }
             "hbs" => {}
+            "insc" => {
+                let slot: usize = t[1].parse().unwrap();
+                match &slots[slot] {
+                    Slot::Idle(s) => s.in_scope(|| ()),
+                    _ => skip = true,
+                }
+            }
+            "ins" => {
+                let slot: usize = t[1].parse().unwrap();
+                match std::mem::replace(&mut slots[slot], Slot::Empty) {
+                    Slot::Idle(s) => {
+                        slots[slot] = if t[2] == "t" {
+                            Slot::FutT(Box::pin(tracing::Instrument::instrument(std::future::pending::<()>(), s)))
+                        } else {
+                            Slot::FutF(Box::pin(tracing_futures::Instrument::instrument(std::future::pending::<()>(), s)))
+                        }
+                    }
+                    other => {
+                        slots[slot] = other;
+                        skip = true;
+                    }
+                }
+            }
+            "poll" => {
+                let slot: usize = t[1].parse().unwrap();
+                let mut cx = Context::from_waker(Waker::noop());
+                match &mut slots[slot] {
+                    Slot::FutT(f) => assert!(f.as_mut().poll(&mut cx).is_pending()),
+                    Slot::FutF(f) => assert!(f.as_mut().poll(&mut cx).is_pending()),
+                    _ => skip = true,
+                }
+            }
+            "idrop" => {
+                let slot: usize = t[1].parse().unwrap();
+                match std::mem::replace(&mut slots[slot], Slot::Empty) {
+                    Slot::FutT(f) => drop(f),
+                    Slot::FutF(f) => drop(f),
+                    other => {
+                        slots[slot] = other;
+                        skip = true;
+                    }
+                }
+            }
             "fol" => {
                 let slot: usize = t[1].parse().unwrap();
                 let from: Option<Id> = if t[2] == "-" {
@@ -415,7 +470,7 @@ fn main() {
                     match &slots[t[2].parse::<usize>().unwrap()] {
                         Slot::Idle(s) => s.id(),
                         Slot::Entered(s) => s.id(),
-                        Slot::Empty => None,
+                        _ => None,
                     }
                 };
                 match &slots[slot] {
@@ -425,7 +480,7 @@ fn main() {
                     Slot::Entered(s) => {
                         s.follows_from(from);
                     }
-                    Slot::Empty => skip = true,
+                    _ => skip = true,
                 }
             }
             "dangling" => keep.push(Dispatch::new(rec.clone())),
@@ -501,7 +556,7 @@ fn main() {
                     Slot::Entered(s) => {
                         s.record(name.as_str(), v.i);
                     }
-                    Slot::Empty => skip = true,
+                    _ => skip = true,
                 }
             }
             "en" => {
